@@ -398,3 +398,306 @@ def r10_4(ctx):
         ok = bool(st) and all(not cfg.can_reach(0, [r], removed=st) or r in st for r in readers)
         ctx.check(ok, R, key + '|%s reset per path' % f, b.loc(), '%s := None before the first op of every path' % f,
                   'apply_path reads self.%s (through line_to/quad_to/cubic_to/close) without resetting it first: it still holds the previous path\'s value, so a path that starts with line_to/quad_to continues from the previous drawing call\'s subpath start (a fresh DrawTarget starts it at its own first point)' % f)
+
+
+# ====================================================================== C01
+BLIT = 'raqote::blitter::'
+
+
+def const_of(ctx, q):
+    c = ctx.F.consts.get(q)
+    if c is None or c.get('val') is None:
+        return None
+    try:
+        return int(c['val'])
+    except ValueError:
+        return float(c['val'])
+
+
+def r01_1(ctx):
+    """sorted-at-scan typestate of the active edge list in Rasterizer::rasterize"""
+    R = 'R01.1'
+    b = ctx.body(RAS + 'rasterize', R)
+    an = ctx.an(b)
+    cfg = an.cfg
+    key = 'rasterizer::Rasterizer::rasterize'
+    eff = {RAS + 'insert_starting_edges': ('S', 'S'), RAS + 'scan_edges': ('S', 'S'), RAS + 'step_edges': (None, 'U'), RAS + 'sort_edges': (None, 'S')}
+    call_at = {}
+    for bi, d, ct in calls_in(ctx, b):
+        if d in eff:
+            call_at[bi] = d
+    ctx.floor(R, 'edge-list calls in rasterize', len(call_at), 4)
+    ctx.check(set(call_at.values()) == set(eff), R, key + '|all four phases', b.loc(), 'insert, scan, step, sort all called', 'rasterize calls %s; expected insert_starting_edges, scan_edges, step_edges and sort_edges' % sorted(short(x) for x in set(call_at.values())))
+    # forward dataflow: state at block entry (set of 'S'/'U'); entry: S (reset() leaves the list empty, R10.2)
+    IN = {0: frozenset('S')}
+    work = [0]
+    bad = {}
+    while work:
+        x = work.pop()
+        st = set(IN[x])
+        if x in call_at:
+            req, post = eff[call_at[x]]
+            if req is not None and st != {req}:
+                bad[x] = call_at[x]
+            st = {post}
+        for y in cfg.succ[x]:
+            new = frozenset(IN.get(y, frozenset()) | st)
+            if new != IN.get(y):
+                IN[y] = new
+                work.append(y)
+    for bi, d in sorted(call_at.items()):
+        if eff[d][0] is None:
+            continue
+        ctx.check(bi not in bad, R, key + '|%s needs a sorted list' % d.split('::')[-1], call_line(b, bi), '%s reached only with a sorted active list' % d.split('::')[-1],
+                  '%s can be reached while the active edge list may be unsorted (after step_edges without sort_edges, around the scan loop): spans would be produced from edges in the wrong x order' % short(d))
+
+
+def r01_2(ctx):
+    """every edge the scan cursor passes contributes its winding"""
+    R = 'R01.2'
+    b = ctx.body(RAS + 'scan_edges', R)
+    an = ctx.an(b)
+    cfg = an.cfg
+    key = 'rasterizer::Rasterizer::scan_edges'
+    wl = named_local_idx(b, 'winding')
+    loops = cfg.loops()
+    n = 0
+    for h, bl in sorted(loops.items()):
+        adv = set()
+        acc = set()
+        for d in an.defs:
+            if d.bb not in bl or d.kind != 'assign' or d.partial:
+                continue
+            t = an.def_term(d)
+            # cursor advance: x = e.next
+            if t[0] == 'field' and t[2] == 'next' and (t[3] or '').endswith('ActiveEdge'):
+                adv.add(d.bb)
+            if t[0] == 'bin' and t[1] == 'Add':
+                w = strip_casts(t[3])
+                if w[0] == 'field' and w[2] == 'winding' and (w[3] or '').endswith('ActiveEdge') and t[2][0] in ('phi', 'rec', 'const'):
+                    acc.add(d.bb)
+        if not adv:
+            continue
+        n += 1
+        # every cycle passes an advance (it is a list walk) and every cycle passes an accumulation
+        ok = not cfg.cyclic_without(bl, acc)
+        ctx.check(ok, R, key + '|loop@%s accumulates' % ('left-of-surface' if n == 1 else 'span'), b.loc(), 'every cycle adds e.winding', 'a loop of scan_edges can advance to the next edge without adding the edge\'s winding to the counter: edges (e.g. those left of the surface) are dropped from the winding number')
+    ctx.floor(R, 'edge-walking loops in scan_edges', n, 2)
+
+
+def named_local_idx(b, name):
+    for i, l in enumerate(b.locals):
+        if l.get('name') == name:
+            return i
+    return None
+
+
+def r01_3(ctx):
+    R = 'R01.3'
+    b = ctx.body(RAS + 'scan_edges', R)
+    key = 'rasterizer::Rasterizer::scan_edges'
+    wl = named_local_idx(b, 'winding')
+    def count_pred(t):
+        return t[0] in ('phi', 'rec') and (t[0] == 'rec' or True)
+    shared.winding_table(ctx, b, R, key, lambda t: t == ('param', 3), count_pred)
+    # the span is blitted only when inside
+    an = ctx.an(b)
+    bs = [(bi, ct) for bi, d, ct in calls_in(ctx, b) if d == 'raqote::blitter::RasterBlitter::blit_span']
+    ok = len(bs) == 1
+    if ok:
+        gs = normalized_guards(ctx, b, bs[0][0])
+        ok = any(op == 'true' and a[0] in ('phi', 'rec') for op, a, b2, si in gs)
+    ctx.check(ok, R, key + '|blit only when inside', b.loc(), 'blit_span under `inside`', 'scan_edges does not blit spans exactly under the inside test')
+
+
+def r01_5(ctx):
+    """raster blitter siblings: rebasing, clamp, row index"""
+    R = 'R01.5'
+    SHIFT = const_of(ctx, 'raqote::blitter::SHIFT')
+    SCALE = const_of(ctx, 'raqote::blitter::SCALE')
+    if not ctx.check(SHIFT is not None and SCALE is not None, R, 'blitter consts', '-', 'SHIFT=%s SCALE=%s' % (SHIFT, SCALE), 'cannot read blitter::SHIFT / SCALE (fail closed)'):
+        return
+    P = lambda i: Poly.leaf(('param', i))
+    for ty in ('MaskSuperBlitter', 'MaskBlitter'):
+        b = ctx.body('<%s%s as raqote::blitter::RasterBlitter>::blit_span' % (BLIT, ty), R)
+        an = ctx.an(b)
+        key = 'blitter::%s::blit_span' % ty
+        SF = lambda n: Poly.leaf(('field', ('deref', ('param', 1)), n, BLIT + ty, None))
+        Y, X1, X2 = P(2) - SF('y'), P(3) - SF('x'), P(4) - SF('x')
+        ROW = Poly.leaf(('bin', 'Div', ('poly', Y), ('poly', Poly.const(SCALE)))) * SF('width')
+        ROW_SHR = Poly.leaf(('bin', 'Shr', ('poly', Y), ('poly', Poly.const(SHIFT)))) * SF('width')   # same row for y >= 0
+        # which of the two equivalent spellings the code uses
+        body_txt = set()
+        for bi0, k0, s0 in b.statements():
+            if s0['k'] == 'assign' and s0['rv']['k'] == 'binop' and s0['rv']['op'] == 'Shr':
+                t0 = an.rvalue_term(bi0, k0, s0['rv'])
+                if poly(t0[2]) == Y:
+                    ROW = ROW_SHR
+        # all accesses to self.buf
+        idxs = []
+        for bi, d, ct in calls_in(ctx, b):
+            if d and d.endswith('IndexMut::index_mut') and is_self_field(strip_all(ct[2][0]), 'buf'):
+                idxs.append((bi, ct[2][1]))
+        for a, v, pt, kind in an.stores:
+            if kind == 'assign' and a[0] == 'index' and is_self_field(strip_all(a[1]), 'buf'):
+                idxs.append((pt[0], a[2]))
+        if not ctx.check(len(idxs) >= 1, R, key + '|buffer access', b.loc(), 'mask buffer access found', 'no access to self.buf found (fail closed)'):
+            continue
+        def clamp_ok(t):
+            """t == min(x2 - self.x, self.width * SCALE)"""
+            t = strip_all(t)
+            return is_call(t, '::min') and poly(t[2][0]) == X2 and poly(t[2][1]) == SF('width') * Poly.const(SCALE)
+        def shr(t):
+            t = strip_casts(t)
+            if t[0] == 'bin' and t[1] == 'Shr' and poly(t[3]) == Poly.const(SHIFT):
+                return t[2]
+            return None
+        for bi, it in idxs[:1]:
+            if it[0] == 'agg':      # MaskSuperBlitter: Range{start, end}
+                f = dict(it[4])
+                s, e = f['start'], f['end']
+                # start = (row as usize) + (x1' >> SHIFT as usize) ; end = row + (clamp >> SHIFT) + 1
+                def split(t):
+                    """terms added together (flatten Add, dropping casts)"""
+                    t = strip_casts(t)
+                    if t[0] == 'bin' and t[1] == 'Add':
+                        return split(t[2]) + split(t[3])
+                    return [t]
+                sp, ep = split(s), split(e)
+                row_s = [x for x in sp if poly(x) == ROW]
+                row_e = [x for x in ep if poly(x) == ROW]
+                xs = [shr(x) for x in sp if shr(x) is not None]
+                xe = [shr(x) for x in ep if shr(x) is not None]
+                one = [x for x in ep if const_val(x) == 1]
+                ctx.check(len(row_s) == 1 and len(row_e) == 1, R, key + '|row term', call_line(b, bi), 'row = ((y - self.y) / %d) * width' % SCALE, 'the mask row is not ((y - self.y) / %d) * self.width in both slice bounds' % SCALE)
+                ctx.check(len(xs) == 1 and poly(xs[0]) == X1, R, key + '|x1 rebased', call_line(b, bi), 'start column = (x1 - self.x) >> SHIFT', 'the span start column is not (x1 - self.x) >> SHIFT')
+                ctx.check(len(xe) == 1 and clamp_ok(xe[0]), R, key + '|x2 clamped', call_line(b, bi), 'end column = min(x2 - self.x, width*SCALE) >> SHIFT', 'the span end is not clamped with min(x2 - self.x, self.width * SCALE) before it indexes the mask row: a span reaching past the right edge writes into the next row / past the buffer')
+                ctx.check(len(one) == 1, R, key + '|+1 slice end', call_line(b, bi), 'slice end includes the partial last cell (+1)', 'the slice end lost its +1 (the partially covered last cell)')
+            else:                   # MaskBlitter: element index = row + i
+                p = poly(it)
+                lv = [l for l in p.leaves() if l[0] == 'field' and l[4] == 'Some' and is_call(l[1], 'Iterator::next')]
+                ok = len(lv) == 1 and p == ROW + Poly.leaf(lv[0])
+                ctx.check(ok, R, key + '|row term', call_line(b, bi), 'index = ((y - self.y) / %d) * width + i' % SCALE, 'the mask index is %s, expected ((y - self.y) / %d) * self.width + i' % (p.show(b), SCALE))
+                D = Deps(an)
+                D.closure(it)
+                rng = [x for x in D.visited if x[0] == 'agg' and x[2] and x[2].endswith('ops::Range')]
+                okr = False
+                for rg in rng:
+                    f = dict(rg[4])
+                    a0, a1 = shr(f['start']), shr(f['end'])
+                    if a0 is not None and a1 is not None and poly(a0) == X1 and clamp_ok(a1):
+                        okr = True
+                ctx.check(okr, R, key + '|x range', call_line(b, bi), 'i in ((x1-self.x)>>SHIFT) .. (min(x2-self.x, width*SCALE)>>SHIFT)', 'the columns written are not (x1 - self.x) >> SHIFT .. min(x2 - self.x, self.width*SCALE) >> SHIFT: without the clamp a span reaching past the right edge writes into the next row / past the buffer')
+                # only the first sample row of each pixel row is used
+                gs = normalized_guards(ctx, b, bi)
+                ok0 = any(op in ('!Ne', 'Eq') and const_val(b2) == 0 and a[0] == 'bin' and a[1] == 'Rem' and poly(a[2]) == Y and poly(a[3]) == Poly.const(SCALE) for op, a, b2, si in gs)
+                ctx.check(ok0, R, key + '|first sample row only', call_line(b, bi), 'writes only when (y - self.y) % SCALE == 0', 'the aliased blitter does not restrict itself to the first sample row of each pixel row ((y - self.y) % SCALE == 0)')
+        # allocation: width*height + 1 (pairs with the +1 slice end)
+        nb = ctx.body(BLIT + ty + '::new', R)
+        rts = shared.ret_terms(ctx, nb)
+        ok = len(rts) == 1 and rts[0][0] == 'agg'
+        if ok:
+            f = dict(rts[0][4])
+            buf = strip_all(f['buf'])
+            ok = is_call(buf, 'vec::from_elem') and const_val(buf[2][0]) == 0 and poly(buf[2][1]) == P(3) * P(4) + Poly.const(1)
+            ok = ok and poly(f['x']) == P(1) * Poly.const(SCALE) and poly(f['y']) == P(2) * Poly.const(SCALE) and f['width'] == ('param', 3)
+        ctx.check(ok, R, 'blitter::%s::new|geometry' % ty, nb.loc(), 'x,y scaled by SCALE; buf = width*height + 1 zero bytes', '%s::new does not store (x*SCALE, y*SCALE, width) with a zeroed buffer of width*height + 1 bytes (the +1 pairs with the slice end of blit_span)' % ty)
+
+
+def r01_6(ctx):
+    """sample-grid constants agree with SAMPLE_SHIFT"""
+    R = 'R01.6'
+    SS = const_of(ctx, 'raqote::rasterizer::SAMPLE_SHIFT')
+    if not ctx.check(SS is not None, R, 'SAMPLE_SHIFT', '-', 'SAMPLE_SHIFT = %s' % SS, 'cannot read rasterizer::SAMPLE_SHIFT (fail closed)'):
+        return
+    want = {'raqote::blitter::SHIFT': SS, 'raqote::blitter::SCALE': 1 << SS, 'raqote::blitter::MASK': (1 << SS) - 1, 'raqote::blitter::SUPER_MASK': (1 << SS) - 1, 'raqote::rasterizer::SAMPLE_SIZE': float(1 << SS)}
+    for q, v in want.items():
+        got = const_of(ctx, q)
+        ctx.check(got == v, R, short(q) + '|value', '-', '%s = %s' % (short(q), got), '%s is %s, expected %s for SAMPLE_SHIFT = %d' % (short(q), got, v, SS))
+    # conversion helpers
+    forms = {'dot2_to_dot16': ('Shl', 16 - SS), 'dot16_to_dot2': ('Shr', 16 - SS), 'dot2_to_int': ('Shr', SS), 'int_to_dot2': ('Shl', SS)}
+    for fn, (op, k) in forms.items():
+        b = ctx.body('raqote::rasterizer::' + fn, R)
+        rts = shared.ret_terms(ctx, b)
+        ok = len(rts) == 1 and rts[0][0] == 'bin' and rts[0][1] == op and rts[0][2] == ('param', 1) and poly(rts[0][3]) == Poly.const(k)
+        ctx.check(ok, R, 'rasterizer::%s|form' % fn, b.loc(), '%s = val %s %d' % (fn, '<<' if op == 'Shl' else '>>', k), '%s is %s, expected val %s %d' % (fn, [fmt(b, t) for t in rts], '<<' if op == 'Shl' else '>>', k))
+    b = ctx.body('raqote::rasterizer::f32_to_dot2', R)
+    rts = shared.ret_terms(ctx, b)
+    ok = len(rts) == 1 and rts[0][0] == 'cast' and rts[0][1] == 'FloatToInt' and rts[0][3][0] == 'bin' and rts[0][3][1] == 'Mul' and rts[0][3][2] == ('param', 1) and const_val(rts[0][3][3]) == float(1 << SS)
+    ctx.check(ok, R, 'rasterizer::f32_to_dot2|form', b.loc(), 'f32_to_dot2 = (val * %d) as i32' % (1 << SS), 'f32_to_dot2 is not (val * SAMPLE_SIZE) as i32')
+    # rows per pixel in rasterize
+    b = ctx.body(RAS + 'rasterize', R)
+    an = ctx.an(b)
+    rng = []
+    for bi, k2, s in b.statements():
+        if s['k'] == 'assign' and s['rv']['k'] == 'agg' and s['rv'].get('adt', '').endswith('ops::Range') and bi in an.cfg.reach:
+            rng.append(an.rvalue_term(bi, k2, s['rv']))
+    ok = len(rng) == 1 and const_val(dict(rng[0][4])['start']) == 0 and poly(dict(rng[0][4])['end']) == Poly.const(1 << SS)
+    ctx.check(ok, R, 'rasterizer::Rasterizer::rasterize|sample rows per pixel', b.loc(), '%d sample rows per pixel row' % (1 << SS), 'rasterize does not scan 1 << SAMPLE_SHIFT = %d sample rows per pixel row' % (1 << SS))
+    # rounding constants of the two span ends
+    b = ctx.body(RAS + 'scan_edges', R)
+    bs = [ct for bi, d, ct in calls_in(ctx, b) if d == 'raqote::blitter::RasterBlitter::blit_span']
+    ok = len(bs) == 1
+    if ok:
+        ends = []
+        for a in bs[0][2][2:4]:
+            a = strip_all(a)
+            if is_call(a, 'rasterizer::dot16_to_dot2') and a[2][0][0] == 'bin' and a[2][0][1] == 'Add':
+                ends.append(poly(a[2][0][3]).const_value())
+            else:
+                ends.append(None)
+        half = 1 << (16 - SS - 1)
+        ok = ends == [half, half]
+        ctx.check(ok, R, 'rasterizer::Rasterizer::scan_edges|rounding', b.loc(), 'both span ends rounded with + %d (half a sample)' % half, 'span ends are rounded with %s before dot16_to_dot2; both must add %d = half of one sample step in 16.16 (round to the nearest quarter pixel)' % (ends, half))
+        ctx.check(is_self_field(strip_all(bs[0][2][1]), 'cur_y'), R, 'rasterizer::Rasterizer::scan_edges|row', b.loc(), 'blit_span(cur_y, ..)', 'scan_edges does not blit at the current sample row')
+    # coverage arithmetic of the super blitter
+    b = ctx.body(BLIT + 'coverage_to_partial_alpha', R)
+    rts = shared.ret_terms(ctx, b)
+    sh = 8 - 2 * SS
+    ok = len(rts) == 1 and strip_casts(rts[0])[0] == 'bin' and strip_casts(rts[0])[1] == 'Shl' and strip_casts(rts[0])[2] == ('param', 1) and poly(strip_casts(rts[0])[3]) == Poly.const(sh)
+    ctx.check(ok, R, 'blitter::coverage_to_partial_alpha|shift', b.loc(), 'partial cell alpha = aa << %d' % sh, 'coverage_to_partial_alpha does not shift by 8 - 2*SHIFT = %d' % sh)
+    b = ctx.body('<%sMaskSuperBlitter as raqote::blitter::RasterBlitter>::blit_span' % BLIT, R)
+    an = ctx.an(b)
+    mx = None
+    for d in an.defs:
+        if b.locals[d.local].get('name') == 'max' and d.kind == 'assign':
+            mx = strip_casts(an.def_term(d))
+    ok = mx is not None and mx[0] == 'bin' and mx[1] == 'Sub' and poly(mx[2]) == Poly.const(1 << (8 - SS))
+    if ok:
+        corr = strip_casts(mx[3])
+        ok = corr[0] == 'bin' and corr[1] == 'Shr' and poly(corr[3]) == Poly.const(SS)
+        if ok:
+            inner = strip_casts(corr[2])
+            ok = inner[0] == 'bin' and inner[1] == 'Add' and const_val(inner[3]) == 1 and inner[2][0] == 'bin' and inner[2][1] == 'BitAnd' and poly(inner[2][3]) == Poly.const((1 << SS) - 1)
+    ctx.check(ok, R, 'blitter::MaskSuperBlitter::blit_span|full cell value', b.loc(), 'full cell = %d - (((y & MASK) + 1) >> SHIFT)' % (1 << (8 - SS)), 'the per-row value of a fully covered cell is not (1 << (8 - SHIFT)) - (((y & MASK) + 1) >> SHIFT) (four rows must add up to 255)')
+    # straight edges: slope = dx * (1 << (16 - SHIFT)) / dy
+    b = ctx.body(RAS + 'add_edge', R)
+    an = ctx.an(b)
+    slopes = [v for a, v, pt, kind in an.stores if kind == 'assign' and field_path(a)[1][-1:] == ['slope_x']]
+    okl = False
+    for v in slopes:
+        v = strip_casts(v)
+        if v[0] == 'bin' and v[1] == 'Div' and v[2][0] == 'bin' and v[2][1] == 'Mul':
+            k = poly(v[2][3]).const_value()
+            num = strip_casts(v[2][2])
+            den = strip_casts(v[3])
+            if k == (1 << (16 - SS)) and num[0] == 'bin' and num[1] == 'Sub' and den[0] == 'bin' and den[1] == 'Sub':
+                def coord(t):
+                    """(point root, axis) of f32_to_dot2(p.axis) (the Edge fields are seen through) or of edge.<axis><n>"""
+                    t = strip_casts(t)
+                    if is_call(t, 'rasterizer::f32_to_dot2'):
+                        r, nm = field_path(t[2][0])
+                        return (r, nm[-1] if nm else None)
+                    r, nm = field_path(t)
+                    if nm and nm[-1] in ('x1', 'x2', 'y1', 'y2'):
+                        return (('edge', nm[-1][1]), nm[-1][0])
+                    return (None, None)
+                (re, ae), (rs, as_) = coord(num[2]), coord(num[3])
+                (re2, ae2), (rs2, as2) = coord(den[2]), coord(den[3])
+                if re is not None and rs is not None and re != rs and (ae, as_) == ('x', 'x') and (ae2, as2) == ('y', 'y') and re2 == re and rs2 == rs:
+                    okl = True
+    ctx.check(okl, R, 'rasterizer::Rasterizer::add_edge|line slope scale', b.loc(), 'slope_x = (x2 - x1) * %d / (y2 - y1)' % (1 << (16 - SS)), 'the slope of a straight edge is not (x2 - x1) * (1 << (16 - SAMPLE_SHIFT)) / (y2 - y1): the 16.16 x advance per sample row has the wrong scale')
+    # start x in 16.16
+    fx = [v for a, v, pt, kind in an.stores if kind == 'assign' and field_path(a)[1][-1:] == ['fullx']]
+    ok = any(is_call(strip_all(v), 'rasterizer::dot2_to_dot16') for v in fx)
+    ctx.check(ok, R, 'rasterizer::Rasterizer::add_edge|fullx', b.loc(), 'fullx = dot2_to_dot16(x1)', 'the starting x of an edge is not converted with dot2_to_dot16')
